@@ -402,6 +402,10 @@ struct Reference {
 
 fn params(len: usize) -> Vec<(usize, Option<usize>)> {
     let mut ws = vec![1usize, 2, 3, len + 1];
+    if len > 8 {
+        // long series: windows beyond the block sizes a contiguous fast path might use
+        ws = vec![1, 3, 9, 16, 17, len + 1];
+    }
     ws.dedup();
     let mut v = vec![];
     for w in ws {
